@@ -19,7 +19,7 @@ def sx(b):
     return "(" + " ".join(str(x) for x in b) + ")" if b else "e"
 
 
-HEAD = ["#include <cgreen/cgreen.h>", "#include <stdio.h>", "#include <stdlib.h>",
+HEAD = ["#include <cgreen/cgreen.h>", "#include <stdio.h>", "#include <stdlib.h>", "#include <signal.h>",
         "static void logit(const char *s) { const char *p = getenv(\"VERIF_EXEC_LOG\"); if (p) { FILE *f = fopen(p, \"a\"); if (f) { fprintf(f, \"%s\\n\", s); fclose(f); } } }"]
 
 
@@ -35,7 +35,10 @@ def lib_sources(tests):
             if (c2 or "") != c:
                 continue
             head = "Ensure(%s, %s)" % (c, n) if c else "Ensure(%s)" % n
-            out.append('%s { logit("%s:%s"); assert_that(%d, is_equal_to(1)); }' % (head, c or "default", n, 1 if ok else 0))
+            if ok == "crash":
+                out.append('%s { logit("%s:%s"); assert_that(1, is_equal_to(1)); raise(SIGKILL); }' % (head, c or "default", n))
+            else:
+                out.append('%s { logit("%s:%s"); assert_that(%d, is_equal_to(1)); }' % (head, c or "default", n, 1 if ok else 0))
         files[c or "default_"] = "\n".join(out) + "\n"
     return files
 
@@ -112,10 +115,13 @@ def gen_libs(chk):
                     seen.add((c, "shared")); tests.append((c, "shared", True))
             if use_default:
                 tests.append((None, "shared", True))
-        # one failing test in some libraries
+        # one failing test in some libraries, one test that is killed (and no failing check) in others
         if k % 3 == 2:
             i = rng.randrange(len(tests))
             tests[i] = (tests[i][0], tests[i][1], False)
+        elif k % 3 == 1 and len(tests) > 1:
+            i = rng.randrange(len(tests))
+            tests[i] = (tests[i][0], tests[i][1], "crash")
         libs.append(("lib%d" % k, tests))
     return libs
 
@@ -154,7 +160,7 @@ def patterns_for(rng, tests, tier):
 
 def model_main(args, libtable):
     """args: list of str; libtable: {name: (exists, tests)}"""
-    libs = " ".join("(%s %d (%s))" % (sx(n.encode()), 1 if ex else 0, " ".join("(%s %s %d)" % (sx((c or "default").encode()), sx(nm.encode()), 1 if ok else 0) for c, nm, ok in ts))
+    libs = " ".join("(%s %d (%s))" % (sx(n.encode()), 1 if ex else 0, " ".join("(%s %s %d)" % (sx((c or "default").encode()), sx(nm.encode()), 1 if ok is True else 0) for c, nm, ok in ts))
                     for n, (ex, ts) in libtable.items())
     return "(M (%s) (%s))" % (" ".join(sx(a.encode()) for a in args), libs)
 
@@ -213,6 +219,15 @@ def run_C09(chk, with_proof=True):
             runs.append(([], [(n1 + ".so", p1), (n2 + ".so", None)]))
             runs.append(([], [(n1 + ".so", None), (n2 + ".so", p1 if selected_py(t2, p1) else "*:*")]))
             runs.append((rng.choice([[], ["--xml", "k"]]), [(n1 + ".so", p1), (n2 + ".so", None), (n3 + ".so", p3)]))
+        # an earlier library with a test that ends abnormally (no failing check anywhere), the last
+        # library restricted to a single passing test: the command must still fail
+        crashlibs = [(n, ts) for n, ts in libs if any(ok == "crash" for c, nm, ok in ts)]
+        goodlibs = [(n, ts) for n, ts in libs if all(ok is True for c, nm, ok in ts)]
+        for (n1, t1) in crashlibs[:2]:
+            for (n2, t2) in goodlibs[:2]:
+                c2, nm2, _ = t2[0]
+                runs.append(([], [(n1 + ".so", None), (n2 + ".so", "%s:%s" % (c2 or "default", nm2))]))
+                runs.append((["--xml", "c"], [(n1 + ".so", None), (n2 + ".so", None)]))
         runs.append(([], [("missing.so", None)]))
 
         def do(run):
@@ -265,7 +280,7 @@ def run_C09(chk, with_proof=True):
                 if not sel:
                     want_fail = True
                 want_exec += ["%s:%s" % (c or "default", nm) for c, nm, ok in sel]
-                if any(not ok for c, nm, ok in sel):
+                if any(ok is not True for c, nm, ok in sel):
                     want_fail = True
             mfail, mex = m.split(" | ", 1)
             mexec = []
@@ -311,8 +326,9 @@ def check_C09(chk):
 
 
 def verdict_cases(chk):
-    """C01's runner part: kept light - the exit status comparisons of run_C09 without the proof files."""
-    return None
+    """C01's runner part: the exit status of cgreen-runner over one or several generated libraries
+    (failing checks, killed tests, missing libraries, nothing selected) - run_C09 without its proof files."""
+    run_C09(chk, with_proof=False)
 
 
 CHECKS = {"C09": check_C09}
